@@ -17,6 +17,11 @@ FLOORS = {
     "thorough": {"distinct_nontrivial": 3000, "prefix_scores_compared": 400000,
                  "exhaustive_ternary_runs": 100000},
 }
+ANCHORS = [
+    "skchange.change_detectors.pelt.run_pelt",
+    "skchange.change_detectors.pelt.get_changepoints",
+    "skchange.change_detectors.pelt.PELT._get_penalty",
+]
 LEVEL = "exploration"
 EXHAUSTIVE_SUBSPACES = {
     "quick": ["all sequences over {0,1,2} of length n<=6 x min_segment_length in {1,2,3} x penalty in "
